@@ -84,12 +84,12 @@ theorem emit_eq : ∀ (m : Nat) (data : Bytes) (i full last : Nat), data.length 
           rw [← Base58.encodeBlock_length, List.take_left]
       · obtain ⟨vs, hvs, hemit⟩ := ih (data.drop 8).length (by rw [List.length_drop]; omega) (data.drop 8) (i + 1) full last rfl
           (by rw [List.length_drop]; omega) (by rw [List.length_drop, hlast]; congr 1; omega)
-        refine ⟨_ :: vs, ?_, ?_⟩
+        refine ⟨(Base58.encodeBlock (data.take 8) ++ List.replicate (11 - Base58.encSize (data.take 8).length) 49) :: vs, ?_, ?_⟩
         · simp only [List.map_cons, encodeBlock_eq _ ht0 ht8, collect, hvs]
         · simp only [emit, hemit]
           have : i ≠ full := by omega
           have hlen : (data.take 8).length = 8 := by simp; omega
-          rw [Base58.encode_gt _ (by omega)]
+          rw [Base58.encode_gt data (by omega)]
           simp [this, hlen, Base58.encSize]
 
 /-- `base58::encode` never fails and is the reference encoder -/
@@ -99,4 +99,145 @@ theorem encode_eq (data : Bytes) : encode data = some (Base58.encode data) := by
   simp only [FULL_BLOCK_SIZE]
   rw [sizes_getD _ (by omega), h1]
   simp only [h2]
+
+/-! ### decoding one block -/
+theorem indexFrom_eq (c : UInt8) : ∀ (l : List UInt8) (i : Nat),
+    Base58.indexFrom c l i = (position (· == c) l).map (· + i)
+  | [], _ => rfl
+  | x :: l, i => by
+    simp only [Base58.indexFrom, position]
+    by_cases h : x = c
+    · simp [h]
+    · simp only [h, if_false, beq_iff_eq, indexFrom_eq c l (i + 1), Option.map_map]
+      congr 1; funext j; simp; omega
+
+theorem position_eq_digitOf (c : UInt8) : position (· == c) BASE58_CHARS = Base58.digitOf c := by
+  rw [Base58.digitOf, indexFrom_eq, alphabet_eq]; simp
+
+/-- the `(res, order)` loop over the reversed block -/
+theorem accDigits_eq : ∀ (l : List UInt8) (res order : Nat),
+    accDigits l (res, order) =
+      (Base58.digitsOf l).map fun ds => (res + order * Base58.ofLE 58 ds, order * 58 ^ ds.length)
+  | [], res, order => by simp [accDigits, Base58.digitsOf, Base58.ofLE]
+  | c :: l, res, order => by
+    simp only [accDigits, position_eq_digitOf, Base58.digitsOf]
+    cases hd : Base58.digitOf c with
+    | none => simp
+    | some d =>
+      simp only [accDigits_eq l]
+      cases hl : Base58.digitsOf l with
+      | none => simp
+      | some ds =>
+        simp only [Option.map_some, Base58.ofLE, List.length_cons, Option.some.injEq, Prod.mk.injEq]
+        refine ⟨?_, ?_⟩
+        · rw [Nat.mul_add, Nat.add_assoc, Nat.mul_assoc]
+        · rw [Nat.pow_succ', Nat.mul_assoc]
+
+theorem digitsOf_snoc : ∀ (l : List UInt8) (c : UInt8),
+    Base58.digitsOf (l ++ [c]) =
+      match Base58.digitsOf l, Base58.digitOf c with | some ds, some d => some (ds ++ [d]) | _, _ => none
+  | [], c => by
+    simp only [List.nil_append, Base58.digitsOf]
+    cases Base58.digitOf c <;> rfl
+  | x :: l, c => by
+    simp only [List.cons_append, Base58.digitsOf, digitsOf_snoc l c]
+    cases Base58.digitOf x <;> cases Base58.digitsOf l <;> cases Base58.digitOf c <;> rfl
+
+theorem digitsOf_reverse : ∀ l : List UInt8, Base58.digitsOf l.reverse = (Base58.digitsOf l).map List.reverse
+  | [] => rfl
+  | x :: l => by
+    rw [List.reverse_cons, digitsOf_snoc, digitsOf_reverse l]
+    simp only [Base58.digitsOf]
+    cases Base58.digitOf x <;> cases Base58.digitsOf l <;> simp
+
+theorem beBytes_eq : ∀ k n, beBytes k n = (Base58.toDigits 256 k n).map UInt8.ofNat
+  | 0, _ => rfl
+  | k + 1, n => by rw [beBytes, beBytes_eq k, toDigits_succ]; simp
+
+theorem beBytes_length (k n : Nat) : (beBytes k n).length = k := by
+  rw [beBytes_eq]; simp [Base58.toDigits_length]
+
+theorem beBytes_add : ∀ (k j n : Nat), beBytes (j + k) n = beBytes j (n / 256 ^ k) ++ beBytes k n
+  | 0, j, n => by simp [beBytes]
+  | k + 1, j, n => by
+    rw [← Nat.add_assoc, beBytes, beBytes_add k j, beBytes, Nat.div_div_eq_div_mul, Nat.pow_succ', List.append_assoc]
+
+/-- the low `k` bytes of the 8-byte big-endian form -/
+theorem beBytes_drop (k n : Nat) (h : k ≤ 8) : (beBytes 8 n).drop (8 - k) = beBytes k n := by
+  have e : 8 = (8 - k) + k := by omega
+  conv => lhs; rw [e, beBytes_add]
+  have : (beBytes (8 - k) (n / 256 ^ k)).length = 8 - k + k - k := by rw [beBytes_length]; omega
+  rw [← this, List.drop_left]
+
+private theorem position_sizes : ∀ s, s < 12 → position (· == s) ENCODED_BLOCK_SIZES = Base58.decSize s := by
+  decide
+
+theorem decSize_le (s k : Nat) (h : Base58.decSize s = some k) : s ≤ 11 := by
+  obtain ⟨_, h2⟩ := Base58.decSize_some s k h
+  rw [← h2]; exact Base58.encSize_le k
+
+theorem max_eq (k : Nat) (h : k ≤ 8) : (if k = 8 then 2 ^ 64 else 1 <<< (k * 8)) = 256 ^ k := by
+  have : k = 0 ∨ k = 1 ∨ k = 2 ∨ k = 3 ∨ k = 4 ∨ k = 5 ∨ k = 6 ∨ k = 7 ∨ k = 8 := by omega
+  rcases this with rfl | rfl | rfl | rfl | rfl | rfl | rfl | rfl | rfl <;> decide
+
+/-- `decode_block`, after the slice `data[8 - size..]` that `decode` takes, is the reference block decoder -/
+theorem decodeBlock_eq (cs : List UInt8) :
+    (decodeBlock cs).map (fun c => c.1.drop (FULL_BLOCK_SIZE - c.2)) = Base58.decodeBlock cs := by
+  unfold decodeBlock Base58.decodeBlock
+  simp only [FULL_ENCODED_BLOCK_SIZE, FULL_BLOCK_SIZE]
+  by_cases hl : cs.length > 11
+  · simp only [hl, if_true, Option.map_none]
+    cases hk : Base58.decSize cs.length with
+    | none => rfl
+    | some k => have := decSize_le _ _ hk; omega
+  · simp only [hl, if_false]
+    rw [position_sizes _ (by omega)]
+    cases hk : Base58.decSize cs.length with
+    | none => rfl
+    | some k =>
+      obtain ⟨hk8, _⟩ := Base58.decSize_some _ _ hk
+      simp only [accDigits_eq, digitsOf_reverse]
+      cases hd : Base58.digitsOf cs with
+      | none => rfl
+      | some ds =>
+        simp only [Option.map_some, Nat.zero_add, Nat.one_mul, max_eq k hk8, Base58.ofDigits]
+        by_cases hlt : Base58.ofLE 58 ds.reverse < 256 ^ k
+        · simp only [hlt, if_true, Option.map_some]
+          rw [beBytes_drop _ _ hk8, beBytes_eq]
+        · simp only [hlt, if_false, Option.map_none]
+
+/-! ### decoding a text -/
+theorem decode_nil' : decode [] = some [] := by
+  unfold decode; rw [show FULL_ENCODED_BLOCK_SIZE = 11 from rfl, chunks_nil]; rfl
+
+theorem decode_cons (s : List UInt8) (hpos : 0 < s.length) :
+    decode s = Base58.join ((decodeBlock (s.take 11)).map (fun c => c.1.drop (FULL_BLOCK_SIZE - c.2))) (decode (s.drop 11)) := by
+  unfold decode
+  simp only [FULL_ENCODED_BLOCK_SIZE]
+  rw [chunks_cons 11 s hpos (by decide)]
+  simp only [List.map_cons]
+  cases decodeBlock (s.take 11) with
+  | none => simp [collect]
+  | some c =>
+    simp only [collect]
+    cases h : collect ((chunks 11 (s.drop 11)).map decodeBlock) with
+    | none => simp
+    | some cs => simp
+
+/-- `base58::decode` is the reference decoder -/
+theorem decode_eq : ∀ (m : Nat) (s : List UInt8), s.length = m → decode s = Base58.decode s := by
+  intro m
+  induction m using Nat.strongRecOn with
+  | _ m ih =>
+    intro s hm
+    by_cases h0 : s.length = 0
+    · have : s = [] := List.eq_nil_of_length_eq_zero h0
+      subst this
+      rw [decode_nil', Base58.decode_le _ (by simp)]; rfl
+    · have hpos : 0 < s.length := by omega
+      rw [decode_cons s hpos, decodeBlock_eq]
+      by_cases h11 : s.length ≤ 11
+      · rw [List.drop_eq_nil_of_le h11, List.take_of_length_le h11, decode_nil', Base58.decode_le _ h11]
+        cases Base58.decodeBlock s <;> simp [Base58.join]
+      · rw [ih (s.drop 11).length (by rw [List.length_drop]; omega) (s.drop 11) rfl, Base58.decode_gt s (by omega)]
 end Monero.B58
